@@ -590,4 +590,35 @@ def r4_9(ctx):
     borrow(ctx, r6_5, "R6.5", "R4.9", " [a tag styles its region through the definition str(style) that markup stores in the span: __str__ must name every attribute the tag set]")
 
 
-RULES = [r4_1, r4_2, r4_3, r4_4, r4_5, r4_6, r4_7, r4_8, r4_9]
+def r4_10(ctx):
+    from .c05 import r5_13
+    from .common import borrow
+    borrow(ctx, r5_13, "R5.13", "R4.10", " [a tag opened later takes precedence also when the same tag was open before: render must combine every open span, repeated ones included]")
+
+
+def r4_11(ctx):
+    ctx.rule("R4.11", "the open-tag stack is the only record of what is open: a set of tag NAMES kept next to it in markup.render (added on open, discarded on close) forgets that a name can be open twice - after [bold]a[bold]b[/bold] the set says bold is closed and the next [/bold] is rejected with a MarkupError although a bold tag is still open")
+    m = ctx.repo.mod("markup")
+    f = m.fn("render")
+    sets = set()
+    for x in walk_local(f.node):
+        tgt = val = None
+        if isinstance(x, ast.Assign) and len(x.targets) == 1:
+            tgt, val = x.targets[0], x.value
+        elif isinstance(x, ast.AnnAssign) and x.value is not None:
+            tgt, val = x.target, x.value
+        if isinstance(tgt, ast.Name) and ((isinstance(val, ast.Call) and norm(val.func) in ("set", "frozenset") and not val.args) or isinstance(val, ast.Set)):
+            sets.add(tgt.id)
+    n = 0
+    for sname in sorted(sets):
+        adds = [c for c in walk_local(f.node) if isinstance(c, ast.Call) and isinstance(c.func, ast.Attribute) and norm(c.func.value) == sname and c.func.attr == "add"]
+        rems = [c for c in walk_local(f.node) if isinstance(c, ast.Call) and isinstance(c.func, ast.Attribute) and norm(c.func.value) == sname and c.func.attr in ("discard", "remove", "pop")]
+        tests = [c for c in walk_local(f.node) if isinstance(c, ast.Compare) and any(isinstance(o, (ast.In, ast.NotIn)) for o in c.ops) and norm(c.comparators[0]) == sname]
+        if adds and rems and tests and any("name" in norm(a.args[0]) for a in adds if a.args):
+            n += 1
+            ctx.violation(f.fq, short(rems[0]), f"{m.relpath}:{rems[0].lineno}", f"`{sname}` mirrors the open-tag stack as a SET of names (`{short(adds[0])}` on open, `{short(rems[0])}` on close) and is consulted by `{short(tests[0])}`: when the same name is open twice, closing one removes the name although the other is still open - a valid closing tag is then rejected")
+    if not n:
+        ctx.ok(f.where, "no set of tag names shadows the open-tag stack", f.fq)
+
+
+RULES = [r4_1, r4_2, r4_3, r4_4, r4_5, r4_6, r4_7, r4_8, r4_9, r4_10, r4_11]
